@@ -67,6 +67,20 @@ where
                 };
                 out.ev("interp", json!({"x": j}), r, json!({"ok": true}), h);
             }
+            "interpf" => {
+                // a position given exactly: {"kind":"onem","k":k} = 1 - 2^-k, {"kind":"pow","k":k} = 2^-k (down to the
+                // smallest subnormal, k = 1074), or {"xf": binary64 fields}; the position used is echoed as `xf`
+                let x = pos_of(a);
+                let (r, h, _) = measured(|| catch(|| s.interpolate(x)));
+                let t = catch(|| twin.interpolate(x));
+                let r = match (r, t) {
+                    (Some(o), Some(t)) => r_val(json!({"out": enc_frame(o), "fresh": enc_frame(t)})),
+                    _ => r_panic(),
+                };
+                let kind = a.get("kind").and_then(|v| v.as_str()).unwrap_or("bits");
+                let k = a.get("k").and_then(|v| v.as_i64()).unwrap_or(0);
+                out.ev("interpf", json!({"kind": kind, "k": k, "xf": f64f(x)}), r, json!({"ok": true}), h);
+            }
             "clear" => {
                 // Interpolator::reset on the instance; the twin is replaced by a brand-new interpolator
                 let (r, h, _) = measured(|| catch(|| s.reset()));
@@ -75,6 +89,28 @@ where
             }
             _ => panic!("unknown sinc op {}", ev),
         }
+    }
+}
+
+/// the interpolation position of an `interpf` / `probef` stimulus (see `direct`)
+fn pos_of(a: &Value) -> f64 {
+    if let Some(xf) = a.get("xf") {
+        if !xf.is_null() {
+            return unf64(xf);
+        }
+    }
+    let k = a["k"].as_u64().unwrap();
+    let pow = |k: u64| -> f64 {
+        assert!(k <= 1074);
+        if k <= 1022 { f64::from_bits((1023 - k) << 52) } else { f64::from_bits(1u64 << (1074 - k)) }
+    };
+    match a["kind"].as_str().unwrap() {
+        "pow" => pow(k),
+        "onem" => {
+            assert!(k >= 1 && k <= 53);
+            1.0 - pow(k)
+        }
+        other => panic!("unknown position kind {}", other),
     }
 }
 
@@ -179,10 +215,12 @@ where
     };
     out.line(&json!({"ev":"reset","comp":"sinc_lin","cfg":echo,"r":r_unit(),"o":{"ok":true}}));
     for op in &ex[1..] {
-        if op["ev"] == "probe" {
-            // interpolate all four instances at x = j/16 without feeding them (interpolate takes &self)
-            let j = op["a"]["x"].as_i64().unwrap();
-            let x = j as f64 / 16.0;
+        if op["ev"] == "probe" || op["ev"] == "probef" {
+            // interpolate all four instances at x = j/16 (probef: at an exactly given position, see `pos_of`)
+            // without feeding them (interpolate takes &self)
+            let exact = op["ev"] == "probef";
+            let j = if exact { 0 } else { op["a"]["x"].as_i64().unwrap() };
+            let x = if exact { pos_of(&op["a"]) } else { j as f64 / 16.0 };
             let (r, h, _) = measured(|| {
                 catch(|| {
                     let mut o = [F::EQUILIBRIUM; 4];
@@ -196,7 +234,11 @@ where
                 Some(o) => r_val(json!({"oa": enc_frame(o[0]), "ob": enc_frame(o[1]), "oab": enc_frame(o[2]), "oka": enc_frame(o[3])})),
                 None => r_panic(),
             };
-            out.ev("probe", json!({"x": j}), r, json!({"ok": true}), h);
+            if exact {
+                out.ev("probef", json!({"xf": f64f(x)}), r, json!({"ok": true}), h);
+            } else {
+                out.ev("probe", json!({"x": j}), r, json!({"ok": true}), h);
+            }
             continue;
         }
         assert_eq!(op["ev"], "step");
@@ -478,6 +520,10 @@ impl<'a> LinGen<'a> {
             for _ in 0..probes {
                 if rng.chance(1, 2) {
                     ex.push(json!({"ev":"probe","a":{"x":rng.below(16)}}));
+                    if rng.chance(1, 3) {
+                        // round 5: an exactly given position next to the grid (1 - 2^-k / 2^-k)
+                        ex.push(json!({"ev":"probef","a":{"kind": if rng.chance(1, 2) { "onem" } else { "pow" },"k":1 + rng.below(53)}}));
+                    }
                 }
             }
         }
@@ -586,6 +632,18 @@ pub fn gen(rng: &mut Rng, tier: &str, execs: &mut Vec<Vec<Value>>) {
                 for j in 0..16 {
                     ex.push(interp(j));
                 }
+                // round 5: positions that are not j/16 - right next to the grid from either side (1 - 2^-k, 2^-k,
+                // a few ulp below 1, a few subnormal steps above 0) and full-precision positions anywhere in [0, 1)
+                for _ in 0..4 {
+                    ex.push(json!({"ev":"interpf","a":{"kind":"onem","k":1 + rng.below(53)}}));
+                    let top = if rng.chance(1, 4) { 1074 } else { 60 };
+                    ex.push(json!({"ev":"interpf","a":{"kind":"pow","k":1 + rng.below(top)}}));
+                    let u = (rng.next() >> 11) as f64 / (1u64 << 53) as f64;
+                    ex.push(json!({"ev":"interpf","a":{"kind":"bits","xf":f64f(u)}}));
+                }
+                ex.push(json!({"ev":"interpf","a":{"kind":"bits","xf":f64f(1.0 - (1 + rng.below(16)) as f64 * f64::EPSILON / 2.0)}}));
+                ex.push(json!({"ev":"interpf","a":{"kind":"bits","xf":f64f(f64::from_bits(1 + rng.below(16)))}}));
+                ex.push(json!({"ev":"interpf","a":{"kind":"onem","k":53}}));
                 ex.push(json!({"ev":"clear","a":{}}));
                 ex.push(interp(0));
                 ex.push(interp(rng.below(16)));
@@ -678,6 +736,28 @@ pub fn gen(rng: &mut Rng, tier: &str, execs: &mut Vec<Vec<Value>>) {
                     ex.push(json!({"ev":"next","a":{}}));
                 }
                 execs.push(ex);
+            }
+            // round 5: converters over CONSTANT sources at ratios whose accumulated phase comes within a few ulp of an
+            // integer (from below: 1/10, 3/10, 7/10, 9/10, 1/7, 2/3, 1/6, 7/5, 49/100; from above: 11/10, 13/10, 1/9,
+            // 1/100) and at a random ratio: the constant clause at whatever position the converter reaches by itself
+            if depth >= 4 && depth <= 16 && si == depth % 2 {
+                let ratios: [(u64, u64); 13] = [(1, 10), (3, 10), (7, 10), (9, 10), (1, 7), (2, 3), (1, 6), (7, 5), (49, 100),
+                    (11, 10), (13, 10), (1, 9), (1, 100)];
+                for round in 0..(if thorough { 3 } else { 1 }) {
+                    let (num, den) = if round == 2 { (1 + rng.below(40), 1 + rng.below(40)) } else { *rng.pick(&ratios) };
+                    let lead = rng.below(3) as usize;
+                    let len = lead + 2 * depth + 12;
+                    let (ca, cb) = (lg.frame(&lg.dense(rng)), lg.frame(&lg.dense(rng)));
+                    let a: Vec<Value> = (0..len).map(|i| if i < lead { lg.frame(&lg.dense(rng)) } else { ca.clone() }).collect();
+                    let b: Vec<Value> = (0..len).map(|_| cb.clone()).collect();
+                    let ctor = *rng.pick(&["scale", "sample", "hz"]);
+                    let nout = (((len as u64) * den) / num + 1).min(if thorough { 1200 } else { 420 });
+                    let mut ex = vec![json!({"ev":"reset","comp":"sinc_clin","cfg":{"depth":depth,"fmt":fmt,"ch":ch,"k":k,"num":num,"den":den,"ctor":ctor,"a":a,"b":b}})];
+                    for _ in 0..nout {
+                        ex.push(json!({"ev":"next","a":{}}));
+                    }
+                    execs.push(ex);
+                }
             }
         }
     }
